@@ -159,6 +159,14 @@ type pathState struct {
 	blocks  []int
 	epochs  map[string]int
 	nRange  int
+	frames  []speFrame // call sites of helpers being executed in place
+}
+
+// speFrame: where to continue in the caller when an in-place executed helper returns.
+type speFrame struct {
+	call *ssa.Call
+	b    *ssa.BasicBlock
+	idx  int
 }
 
 func (s *pathState) clone() *pathState {
@@ -172,6 +180,7 @@ func (s *pathState) clone() *pathState {
 		allocs: make(map[string]bool, len(s.allocs)),
 		ambig:  s.ambig,
 		nRange: s.nRange,
+		frames: append([]speFrame(nil), s.frames...),
 	}
 	for k, v := range s.env {
 		n.env[k] = v
@@ -343,6 +352,9 @@ func (x *SPE) instrsFrom(st *pathState, b *ssa.BasicBlock, from int) {
 				if x.inlineCall(st, b, idx, call, cal) {
 					return
 				}
+				if defaultInline(cal) && x.deepInline(st, b, idx, call, cal) {
+					return
+				}
 			}
 		}
 		switch in := in.(type) {
@@ -393,6 +405,20 @@ func (x *SPE) instrsFrom(st *pathState, b *ssa.BasicBlock, from int) {
 			for _, r := range in.Results {
 				res = append(res, x.val(st, r))
 			}
+			if n := len(st.frames); n > 0 {
+				// a helper executed in place returns into its caller
+				f := st.frames[n-1]
+				st.frames = st.frames[:n-1]
+				switch len(res) {
+				case 0:
+				case 1:
+					st.env[f.call] = res[0]
+				default:
+					st.env[f.call] = &Expr{Op: "tuple", Args: res, Type: f.call.Type()}
+				}
+				x.instrsFrom(st, f.b, f.idx+1)
+				return
+			}
 			x.finish(st, "return", res, b)
 			return
 		case *ssa.Panic:
@@ -404,6 +430,40 @@ func (x *SPE) instrsFrom(st *pathState, b *ssa.BasicBlock, from int) {
 	}
 	// block without terminator (should not happen)
 	x.finish(st, "fallout", nil, b)
+}
+
+// deepInline executes a helper outside the pinned vocabulary in place: its
+// blocks run on the caller's path state (parameters bound to the argument
+// values, loops bounded like the caller's, impure calls inside it treated as
+// anywhere else) and its return continues after the call. Extracting lines
+// into a helper - also lines with loops or impure calls - is then no change
+// to what a path rule sees.
+func (x *SPE) deepInline(st *pathState, b *ssa.BasicBlock, idx int, call *ssa.Call, cal *ssa.Function) bool {
+	if len(st.frames) >= 3 || len(cal.Blocks) > 60 || len(cal.FreeVars) > 0 || len(call.Call.Args) != len(cal.Params) {
+		return false
+	}
+	for _, f := range st.frames {
+		if f.call.Call.StaticCallee() == cal {
+			return false
+		}
+	}
+	for _, cb := range cal.Blocks {
+		for _, in := range cb.Instrs {
+			switch in.(type) {
+			case *ssa.Defer, *ssa.Go, *ssa.RunDefers, *ssa.Select:
+				return false
+			}
+		}
+	}
+	for i, p := range cal.Params {
+		st.env[p] = x.val(st, call.Call.Args[i])
+	}
+	for _, cb := range cal.Blocks {
+		delete(st.visits, cb)
+	}
+	st.frames = append(st.frames, speFrame{call: call, b: b, idx: idx})
+	x.block(st, cal.Blocks[0], nil)
+	return true
 }
 
 // inlineCall splices the paths of a pure callee into the current path.
@@ -1153,6 +1213,9 @@ func nonNil(e *Expr) bool {
 			// an interface holding a typed value is non-nil
 			return true
 		}
+	case OpCall:
+		// constructors of errors never return nil
+		return e.calleeIs("fmt", "Errorf") || e.calleeIs("errors", "New")
 	}
 	return false
 }
